@@ -257,6 +257,7 @@ var SupportTypes = map[string]string{
 	"@k":     `"key"`,
 	"@base":  "{\n  \"bk\": 1\n}",
 	"@base2": "{\n  \"bk2\": 2\n}",
+	"@marker": "{}", // an object type without properties: may be listed twice in an allOf
 }
 
 // TLC prints only ASCII: control characters inside decoded values travel as placeholders.
